@@ -15,6 +15,11 @@ def is_nan(x):
     return isinstance(x, float) and x != x
 
 
+def _ends_diff(x):
+    """a feature function without an `axis` argument: last minus first value of the slice"""
+    return x[-1] - x[0]
+
+
 def cells_of(df):
     """nested frame -> [instance][column] -> list of values"""
     return [[[S(v) for v in list(df.iloc[i, j])] for j in range(df.shape[1])] for i in range(df.shape[0])]
@@ -41,7 +46,7 @@ class C14(Harness):
         return {"instances": "1..2" if q else "1..3", "columns": "1..2", "series_length": "2..%d (unequal lengths for padding / truncation)" % (5 if q else 6), "paa_intervals": "1..length"}
 
     def cells(self, tier):
-        names = ["padding", "padding-int", "truncation", "paa", "tabularizer", "concatenator", "interval-int", "interval-array", "sliding", "features", "row", "slope", "cosine", "adaptor"]
+        names = ["padding", "padding-int", "truncation", "paa", "tabularizer", "concatenator", "interval-int", "interval-array", "sliding", "features", "row", "row-mean", "slope", "cosine", "adaptor"]
         out = [{"name": n, "kind": n, "cost": 2} for n in names]
         for m in ("ffill", "bfill", "constant", "mean", "median", "linear"):
             out.append({"name": "imputer-" + m, "kind": "imputer", "method": m, "cost": 1})
@@ -231,7 +236,7 @@ class C14(Harness):
         if k == "features":
             FE = W.load(PANEL + ".summarize._extract").RandomIntervalFeatureExtractor
             slope = W.load("sktime.utils.slope_and_trend")._slope
-            t = FE(n_intervals=2, features=[np.mean, np.std, slope], random_state=inp["seed"])
+            t = FE(n_intervals=2, features=[np.mean, np.std, slope, _ends_diff], random_state=inp["seed"])
             t.fit(X)
             r = t.transform(X)
             return {"table": [[S(v) for v in row] for row in r.to_numpy().tolist()], "intervals": [[int(a), int(b)] for a, b in t.intervals_], "cols": [str(c) for c in r.columns]}
@@ -248,6 +253,11 @@ class C14(Harness):
 
             r = RT(Tr(), check_transformer=True).fit(X).transform(X)
             return {"cells": cells_of(r)}
+        if k == "row-mean":
+            RP = W.load(PANEL + ".compose").SeriesToPrimitivesRowTransformer
+            MT = W.load("sktime.transformations.series.summarize").MeanTransformer
+            r = RP(MT(), check_transformer=False).fit(X).transform(X)
+            return {"table": [[S(v) for v in row] for row in r.to_numpy().tolist()]}
         if k == "slope":
             slope = W.load("sktime.utils.slope_and_trend")._slope
             vals = []
@@ -464,17 +474,21 @@ class C14(Harness):
         if k == "features":
             ivs = out["intervals"]
             tab = out["table"]
-            P.check("rows-in-input-order", len(tab) == ni and all(len(r) == 3 * len(ivs) for r in tab))
+            P.check("rows-in-input-order", len(tab) == ni and all(len(r) == 4 * len(ivs) for r in tab))
             for a, b in ivs:
                 P.check("interval-features", 0 <= a < b <= Ln)
-            P.check("interval-features", out["cols"] == ["%d_%d_%s" % (a, b, f) for f in ("mean", "std", "_slope") for a, b in ivs])
+            P.check("interval-features", out["cols"] == ["%d_%d_%s" % (a, b, f) for f in ("mean", "std", "_slope", "_ends_diff") for a, b in ivs])
             for i in range(min(ni, len(tab))):
                 col = 0
-                for fname in ("mean", "std", "slope"):
+                for fname in ("mean", "std", "slope", "ends_diff"):
                     for a, b in ivs:
                         seg = x[i][0][a:b]
                         n = len(seg)
                         mean = sum(seg) / n
+                        if fname == "ends_diff":  # a plain Python feature (no `axis` keyword: applied slice by slice)
+                            P.eq("interval-features", tab[i][col], seg[-1] - seg[0], {"feature": fname, "interval": [a, b]})
+                            col += 1
+                            continue
                         if fname == "mean":
                             want = mean
                         elif fname == "std":
@@ -489,6 +503,13 @@ class C14(Harness):
                             want = sum((t - tbar) * (v - mean) for t, v in zip(ts, seg)) / sum((t - tbar) * (t - tbar) for t in ts)
                         self._eq_tol(P, "interval-features", tab[i][col], want, seg, exact=(n & (n - 1) == 0) and fname != "std", detail={"feature": fname, "interval": [a, b]})
                         col += 1
+            return
+        if k == "row-mean":
+            tab = out["table"]
+            P.check("rows-in-input-order", len(tab) == ni and all(len(r) == nc for r in tab))
+            for i in range(min(ni, len(tab))):
+                for j in range(min(nc, len(tab[i]))):
+                    P.eq("row-transformer", tab[i][j], sum(x[i][j]) / len(x[i][j]), {"what": "mean of the instance's own series in that column"})
             return
         if k == "row":
             if not shape_ok(out["cells"]):
